@@ -174,6 +174,13 @@ class CGraph:
                 raise Exception(err_str)
             # print self
 
+        # the sweep has rolled back every in-place buffer write; redo the writes
+        # in recording order so that all node values are again those of the
+        # forward evaluation and further reverse sweeps can follow
+        for f in self.functionList:
+            if is_set(f.setitem):
+                f.__class__.pushforward(f.func, f.args, Fkwargs = f.kwargs, Fout = f)
+
     def function(self, x_list):
         """ computes the function of a function y = f(x_list), where y is a scalar
         and x_list is a list or tuple of input arguments.
